@@ -15,7 +15,7 @@ import numpy as np
 from hypothesis import strategies as st
 
 from ..core import Part, Violation
-from ..gens import seeds
+from ..gens import fl, seeds
 
 PROPERTY = "C04"
 LEVEL = "exploration"
@@ -319,8 +319,23 @@ def _history_cases(draw, tier):
     ops = []
     nops = draw(st.integers(2, 7))
     for _ in range(nops):
-        kind = draw(st.sampled_from(["noise", "noise", "chan", "use", "use"]))
-        if kind == "noise" and scheme in _NOISE_SCHEMES:
+        kind = draw(st.sampled_from(["noise", "noise", "chan", "use", "use",
+                                     "rejected"]))
+        if kind == "rejected":
+            # a call the scheme documents as an error (ValueError): wrong
+            # antenna count for Alamouti / MRT, negative noise variance
+            if scheme == "Alamouti":
+                ops.append(dict(op="rejected", what="chan", chan=draw(
+                    cond_matrix(Nr, draw(st.sampled_from([1, 3, 4])), 2.0))))
+            elif scheme == "MRT":
+                ops.append(dict(op="rejected", what="chan", chan=draw(
+                    cond_matrix(draw(st.sampled_from([2, 3])), Nt, 2.0))))
+            elif scheme in _NOISE_SCHEMES:
+                ops.append(dict(op="rejected", what="noise",
+                                value=-draw(fl(1e-3, 10.0))))
+            else:
+                ops.append(dict(op="use"))
+        elif kind == "noise" and scheme in _NOISE_SCHEMES:
             ops.append(dict(op="noise", value=draw(st.one_of(
                 st.just("none"), st.just("zero"), _noise()))))
         elif kind == "chan":
@@ -713,6 +728,21 @@ def _check_history(case, ctx):
                     noise_set_then_cleared = True
                 obj.set_noise_var(noise)
                 ctx.label("hist_op:noise")
+            elif op["op"] == "rejected":
+                # the call is refused; the object keeps working with the
+                # channel and noise variance it had (judged by the next use)
+                try:
+                    if op["what"] == "chan":
+                        Hbad = build_cond_matrix(op["chan"])[0]
+                        obj.set_channel_matrix(Hbad.copy())
+                    else:
+                        obj.set_noise_var(float(op["value"]))
+                except ValueError:
+                    ctx.label("hist_op:rejected_" + op["what"])
+                else:
+                    # not refused: nothing is stated about what follows
+                    ctx.label("hist_op:rejected_but_accepted")
+                    return
             else:
                 n_use += 1
                 fresh = cls(H.copy())
